@@ -70,6 +70,9 @@ static lent *L_tab; static size_t L_cap, L_live, L_used; static long L_live_byte
 static pthread_mutex_t L_mu = PTHREAD_MUTEX_INITIALIZER;
 static uint64_t L_seq; static long L_badfree; static char L_badsite[128];
 static volatile int G_junk = -1; static int G_nojunk;
+static __thread long T_growth_ws, T_growth_sys;      /* monotonic: ?expand calls seen inside a caller workspace (hook 4) / allocations made by ?expand (library allocation) */
+long vf_growth_ws(void) { return T_growth_ws; }
+long vf_growth_sys(void) { return T_growth_sys; }
 static volatile int G_yield_permille = 0;
 static __thread uint64_t T_yield_rng;
 static __thread const char *T_fault_func; static __thread long T_fault_k, T_fault_seen; static __thread int T_fault_fired;
@@ -135,6 +138,7 @@ void *vf_malloc(size_t size, const char *file, int line, const char *func)
     maybe_yield();
     void *p = malloc(size ? size : 1);
     if (!p) return NULL;
+    { size_t fl = strlen(func); if (fl == 7 && !strcmp(func + 1, "expand")) T_growth_sys++; }
 #ifndef VF_MSAN
     int j = G_junk;
     if (j >= 0 && !G_nojunk) {
@@ -218,12 +222,12 @@ int sp_ienv(int ispec)
 
 /* ======================================================================= events */
 static int G_evdebug; static __thread int T_zp_nocand; static __thread long T_ev[6]; static __thread int T_ev_first[6];
-static __thread long T_layout_bad, T_layout_seen; static __thread int T_layout_type;   /* sticky for the whole case (modules reset the other counters mid-case) */
+static __thread long T_layout_bad, T_layout_seen; static __thread int T_layout_type;
 void slu_verif_event(int kind, int a, int b)
 {
     if (kind == 5) { T_layout_seen++; if (a && T_layout_bad++ == 0) T_layout_type = b; if (G_evdebug) fprintf(stderr, "EV5 bad=%d type=%d\n", a, b); return; }
     (void)b; if (kind < 1 || kind > 4) return;
-    if (kind == 4) { if (b >= 16) T_ev[VF_EV_WS_GROWTH]++; if (G_evdebug) fprintf(stderr, "EV4 overlap=%d type=%d\n", a, b);
+    if (kind == 4) { if (b >= 16) { T_growth_ws++; T_ev[VF_EV_WS_GROWTH]++; } if (G_evdebug) fprintf(stderr, "EV4 overlap=%d type=%d\n", a, b);
         /* an in-flight growth of UCOL books USUB's share as well and is legitimately over-committed until the USUB call that follows has checked it */
         if (!a || b == 16 + UCOL) return; }      /* kind 4 counts as an overlap event only when the invariant is broken */
     if (kind == VF_EV_ZERO_PIVOT && b == 0 && !T_zp_nocand) {
